@@ -214,10 +214,16 @@ def run(ctx):
                       'primitive.DerivedFactor.desugar_for_weights', 'cross_block._desugar_constraints',
                       'constraint.*.desugar', 'weight.combination_weight', 'constraint.Cross.apply']
     ctx.bounds = {'designs': f'{len(r_designs(ctx.tier))} weighted descriptors against the reference; {len(twins(ctx.tier))} '
-                             'weighted/twin pairs (weights 2 and 3)'}
+                             'weighted/twin pairs (weights 2 and 3); thorough: plus every seeded random descriptor out of 1200 with a weighted level'}
     ctx.outside += ['constraints or derived levels that name a weighted level in the twin comparison', 'weights > 3']
     ctx.assumptions += ['reference rule 7 (part 1 only)', 'z3/CryptoMiniSat sound']
     ctx.rule = 'one case per weighted descriptor / twin pair'
-    res = pmap(ctx, check_design, [(d, ('sound', 'complete', 'trials')) for d in r_designs(ctx.tier)])
+    ds = list(r_designs(ctx.tier))
+    if ctx.tier == 'thorough':
+        # every seeded random descriptor (out of 1200) that has a weighted level, crossed or not
+        from ..corpus import designs
+        ds += [d for d in designs('thorough', ctx.seed, 1200)[-1200:]
+               if any(isinstance(l, (list, tuple)) for f in d['factors'] if 'window' not in f for l in f['levels'])]
+    res = pmap(ctx, check_design, [(d, ('sound', 'complete', 'trials')) for d in ds])
     ctx.extra['design_outcomes'] = {str(k): res.count(k) for k in set(res)}
     pmap(ctx, twin_check, twins(ctx.tier))
